@@ -1289,4 +1289,14 @@ def scenarios(tick=0.125):
         {"name": "a1", "sched": "aux", "order": "mid", "period": 0.0, "first": "y", "frames": [
             _fr("x"), _fr("y", "x", preacts=[["go", [["recurred", ">=", 1]], "z"]]),
             _fr("z", "x", enacts=[["done", ["me"]]])]}]})))
+    # S24: `under X` names a child that is NOT the first one declared (parent declared before its children, and
+    # once with the parent declared last): X is the primary under, outlines run through it
+    for order in (["top", "c1", "c2", "c3"], ["c1", "c2", "top", "c3"], ["c3", "c2", "c1", "top"]):
+        frs = {"top": _fr("top", under="c2", preacts=[["go", [["recurred", ">=", 2]], "c3"]]),
+               "c1": _fr("c1", "top"), "c2": _fr("c2", "top"),
+               "c3": _fr("c3", "top", preacts=[["go", [["recurred", ">=", 1]], "top"]],
+                         reacts=[["inc", 0, 1]])}
+        out.append(("under-names-later-child-%s" % order[0], _tagged({"tick": tick, "nvars": 1, "framers": [
+            {"name": "m0", "sched": "active", "order": "mid", "period": 0.0, "first": "top",
+             "frames": [frs[n] for n in order]}]})))
     return out
